@@ -51,4 +51,25 @@ pub(crate) mod verif_kani {
             Err(_) => assert!(trailer != crc),
         }
     }
+    /// complete for this request shape: a read request formatted for RTU (any valid range, any unit id, every decode level) is
+    /// address, function code, start, quantity and the CRC-16/MODBUS of those six bytes, low byte first
+    #[kani::proof]
+    #[kani::unwind(10)]
+    pub(crate) fn k_format_request_rtu() {
+        let start: u16 = kani::any();
+        let count: u16 = kani::any();
+        kani::assume(count >= 1 && start as u32 + count as u32 <= 65536);
+        let range = crate::types::AddressRange::try_from(start, count).unwrap();
+        let unit: u8 = kani::any();
+        let header = FrameHeader::new_rtu_header(FrameDestination::UnitId(UnitId::new(unit)));
+        let mut writer = crate::common::frame::FrameWriter::rtu();
+        let level = crate::common::frame::verif_kani::any_level();
+        let bytes = writer.format_request(header, crate::common::function::FunctionCode::ReadCoils, &range, level).unwrap();
+        assert!(bytes.len() == 8);
+        assert!(bytes[0] == unit && bytes[1] == 0x01);
+        assert!(bytes[2] == (start >> 8) as u8 && bytes[3] == start as u8);
+        assert!(bytes[4] == (count >> 8) as u8 && bytes[5] == count as u8);
+        let crc = CRC.checksum(&bytes[..6]);
+        assert!(bytes[6] == crc as u8 && bytes[7] == (crc >> 8) as u8);
+    }
 }
